@@ -155,6 +155,32 @@ PROPS = {
                      'group members are one-character strings (other members: native check)'],
         design_ref='2 / C06',
     ),
+    'C20': dict(
+        level='other',
+        functions=[SEQ + 'set_HTMLColorResiduePalette'],
+        lemmas=[],
+        native='c20',
+        explanation='proved: set_HTMLColorResiduePalette accepts exactly the dictionaries that give each of the 20 residues one of the 17 colour names (values range over the 17 names and '
+                    'representative illegal strings; one missing key per case), stores exactly the given colours, and leaves the palette unchanged on every exceptional exit (frame on raise). '
+                    'NOT under contract: get_HTMLColorString - %-formatting of symbolic strings is outside the executor\'s string model; the bounded native check (random palettes/update series, '
+                    'markup stripped and compared, exact block layout) stands in',
+        assumptions=['rendering (get_HTMLColorString): bounded native check only', 'palette values are drawn from the 17 legal names plus the illegal candidates pink / Red / empty string'],
+        design_ref='2 / C20',
+    ),
+    'C16': dict(
+        level='proof',
+        functions=[SEQ + f for f in ('setPhosPhoSites', 'clear_phosphosites', 'get_phosphosites', 'get_phosphosequence', 'kappa_at_maxPhos',
+                                     'calculateNumberDifferentPhosphoStates', 'calculateKappaDistOfPhosphoStates')] +
+                  [SP + f for f in ('set_phosphosites', 'clear_phosphosites', 'get_phosphosites', 'get_phosphosequence')],
+        lemmas=['rmax_lower'],
+        native='c16',
+        assumptions=['transition contracts: set_phosphosites keeps the old list as a prefix, adds only requested valid (in range, S/T/Y) positions, adds every valid requested position, never repeats, never raises, '
+                     'changes nothing but the list (frame); clear empties it. "After any series of calls" is the fold of these transitions (induction over the history: standard meta-step, not mechanised; checked natively on random series)',
+                     'first-set ORDER among the positions added by one call is not part of the proved postcondition (native check covers it)',
+                     'the distribution is proved for 0, 1 and 2 sites (2^k entries in binary counting order, each entry = the six contracts applied to the sequence with E stored at the sites whose bit is 1); more sites: native check',
+                     'get_all_phosphorylatable_sites and the two get_kappa_after_phosphorylation / get_full_phosphostatus_kappa_distribution forwarders: native check only'],
+        design_ref='2 / C16',
+    ),
 }
 
 _BOUNDED_ONLY = ('deductive contracts for this property are not yet discharged in this build: the claim rests on the bounded native '
